@@ -367,6 +367,23 @@ impl Monitor for OnchainMonitor {
 			if late_rise && known_at.is_some() {
 				v.rep.count("c07_u4_htlc_outputs_with_a_fee_rise_near_the_expiry");
 			}
+			// C03 on chain (latest-commitment closes): everything has matured, so the payer of an HTLC that went to the
+			// chain has been told how its payment ended - PaymentSent only if the recipient's user released the preimage
+			if prop == "C07" && !w.late_update && !late_rise {
+				v.rep.count("c03_onchain_htlcs_of_payers_judged");
+				if !w.terminal_seen.contains(&(offerer, h.hash)) {
+					v.violation("C03", "P2-P3-terminal-event-after-onchain-resolution", "the payer of an HTLC that was resolved on chain was never told how its payment ended although everything on chain has matured", format!("node{} hash {} (HTLC of {} msat expiring at {}, preimage released: {})", offerer, pre, h.amount_msat, h.cltv, known_at.is_some()));
+				} else if w.sent_seen.contains(&(offerer, h.hash)) && known_at.is_none() {
+					v.violation("C03", "P1-truthful-sent", "PaymentSent for an HTLC resolved on chain although the recipient's user never released the preimage", format!("node{} hash {}", offerer, pre));
+				} else if w.sent_seen.contains(&(offerer, h.hash)) {
+					v.rep.count("c03_onchain_htlcs_reported_payment_sent");
+				} else {
+					v.rep.count("c03_onchain_htlcs_reported_payment_failed");
+				}
+				if w.sent_seen.contains(&(offerer, h.hash)) && w.failed_seen.contains(&(offerer, h.hash)) {
+					v.rep.count("c03_onchain_hashes_with_both_payment_sent_and_payment_failed_observed");
+				}
+			}
 			match known_at {
 				None => *ent.entry(offerer).or_default() += h.amount_msat / 1000,
 				Some(kh) if kh.max(close_h) + 40 <= h.cltv && !late_rise => {
